@@ -39,8 +39,14 @@ def gen_spec(rnd):
         if rnd.random() < .3:
             # a spawn that has a real cost (a hook probing the new worker takes virtual time)
             ws[-1]['hooks'] = {'after_spawn': ['true+%s' % rnd.choice([0.05, 0.1]), False]}
+        if rnd.random() < .15:
+            # a start that fails half-way: a later spawn is refused, or after_start says no (the watcher is stopped
+            # again, the sequence goes on with the next one)
+            hk = rnd.choice([('before_spawn', '%s@%d' % (rnd.choice(['false', 'raise']), rnd.randint(2, 3))),
+                             ('after_start', rnd.choice(['false', 'raise']))])
+            ws[-1].setdefault('hooks', {})[hk[0]] = [hk[1], False]
     trig = rnd.choice(['boot', 'boot', 'start-all', 'restart-glob', 'start-glob', 'start-regex', 'restart-regex',
-                       'restart-all-names'])
+                       'restart-all-names', 'restart-during-check'])
     return {'watchers': ws, 'arb': {'warmup_delay': rnd.choice([0, 0, 1, 2])}, 'trigger': trig,
             'death_at': rnd.randint(1, 40) if rnd.random() < .33 else None}
 
@@ -134,6 +140,9 @@ def _run(w, h, res):
     if trig.startswith('start'):
         yield w.call('stop', waiting=True)
         yield w.settle(60)
+    if trig == 'restart-during-check':
+        yield _during_check(w, h, res)
+        return
     l0 = len(k.log)
     sel = confs
     if trig == 'start-all':
@@ -158,6 +167,48 @@ def _run(w, h, res):
         res.obs['single_match(not a group start)'] += 1
         return
     judge(w, h, res, l0, [c for c in sel if c['autostart']], trig)
+
+
+@gen.coroutine
+def _during_check(w, h, res):
+    """a restart / start request arriving while a periodic check is busy respawning that watcher's workers one
+    warmup_delay apart: whatever is accepted, two spawns of the watcher are never closer than its warmup_delay"""
+    k = w.kernel
+    cands = [c for c in h['watchers'] if c['autostart'] and c['numprocesses'] >= 2 and c['warmup_delay'] > 0
+             and not c.get('hooks') and w.arb.get_watcher(c['name']).status() == 'active']
+    if not cands:
+        res.obs['restart-during-check:no-suitable-watcher'] += 1
+        return
+    c = cands[0]
+    tag = simhist.tag_of(c['name'])
+    for p in k.live(tag):
+        k.kill(p, 9, sender='ext')
+    l0 = len(k.log)
+    w.loop.add_callback(w.check)
+    accepted = 0
+    for i in range(60):
+        yield w.advance(0.05)
+        mid = w.req('restart' if i % 2 == 0 else 'start', name=c['name'])
+        rep = w.reply(mid)
+        if isinstance(rep, dict) and rep.get('status') == 'ok':
+            accepted += 1
+            if accepted >= 2:
+                break
+    yield w.settle(200)
+    if w.stalled is not None:
+        res.obs['stalled(C05 owns)'] += 1
+        return
+    ts = [e[0] - EPOCH for e in k.log[l0:] if e[1] == 'spawn' and e[3] == tag]
+    res.obs['restart_during_check_sequences'] += 1
+    for a, b in zip(ts, ts[1:]):
+        res.obs['intra_watcher_gaps'] += 1
+        if b - a < c['warmup_delay'] - EPS:
+            res.violation('C19/spawns-closer-than-warmup_delay:restart-during-check',
+                          'watcher %s (warmup_delay %s): a periodic check was respawning its workers when restart/start '
+                          'requests arrived; spawns at %s' % (c['name'], c['warmup_delay'], [round(t, 3) for t in ts]))
+            break
+    if len(ts) >= 2:
+        res.nontrivial(repr(('restart-during-check', c['numprocesses'], c['warmup_delay'], len(ts), accepted)))
 
 
 def _arm(w, h):
